@@ -23,7 +23,8 @@ Definition rbind {A B} (r : res A) (f : A -> res B) : res B :=
    3  DBNInference.__init__: a name without intra-slice edge ("CPD defined on variable not in the model")
    4  _update_belief: potential's scope is not inside the in-clique ("Factors defined on clusters ...")
    5  normalising constant is zero (pgmpy returns nan)
-   6  backward pass divides a non-zero message entry by a zero forward-potential entry (pgmpy: inf/nan)
+   6  backward pass divided a non-zero message entry by a zero forward-potential entry (pgmpy: inf/nan) and a query is
+      asked in that or an earlier slice
    8  a query variable is also an evidence variable (ValueError from BeliefPropagation.query)
    9  empty list of query variables (ValueError from max())
    7  add_edge rejects the edge (self loop, backward edge, edge over several slices) *)
@@ -278,13 +279,16 @@ Definition ratio_finite (message clique_potential : F) : bool :=
   | _, _ => true
   end.
 
-(* backward_inference (= query): state = (update_factor at slice 1, interface evidence dict, answers) *)
-Definition bwd_state := (F * list (var * nat) * answers)%type.
+(* backward_inference (= query): state = (update_factor at slice 1, interface evidence dict, answers, poisoned).
+   poisoned: some ratio so far divided a non-zero entry by zero, so the engine's tables hold inf/nan from there on;
+   pgmpy only shows that in the answers of queries asked in the remaining (earlier) slices: error 6 there; a run
+   that asks nothing more ends normally. *)
+Definition bwd_state := (F * list (var * nat) * answers * bool)%type.
 Definition fone0 : F := fone Qc_sum_csr card.
 
 Definition bwd_step (pots : list F) (qs : queries) (ev : evidence) (st : res bwd_state) (t : nat)
   : res bwd_state :=
-  rbind st (fun '(upd_f, idict, ans) =>
+  rbind st (fun '(upd_f, idict, ans, poisoned) =>
     let ev_t0 := get_ev ev t 1 in
     let ev_prev := get_ev ev (t - 1) 0 in
     (* `if evidence_prev_time:` -- the dict is only replaced when slice t-1 has evidence *)
@@ -293,21 +297,22 @@ Definition bwd_step (pots : list F) (qs : queries) (ev : evidence) (st : res bwd
     let ev_t := match ev_t0 with [] => [] | _ :: _ => ev_t0 ++ idict' end in
     let fwd_f := fshift 1 (nth t pots fone0) in
     let mid := F1 ++ [nth (t - 1) pots fone0] ++ ratio_factors upd_f fwd_f in
-    if negb (ratio_finite upd_f fwd_f) then Err 6 else
+    let poisoned' := poisoned || negb (ratio_finite upd_f fwd_f) in
+    if poisoned' && has_query qs t then Err 6 else
     rbind (query_slice mid qs t 1 ev_t) (fun ans_t =>
       let mid' := if has_query qs t then F1 else mid in   (* same reset as in the forward pass *)
       let inphi := joint_marg mid' ev_t I0 in
-      Ok (fshift 1 inphi, idict', ans ++ ans_t))).
+      Ok (fshift 1 inphi, idict', ans ++ ans_t, poisoned'))).
 
 Definition backward_inference (qs : queries) (ev : evidence) : res answers :=
   rbind (forward_potentials qs ev) (fun pots =>
     let T := time_range qs ev in
-    let st0 : res bwd_state := Ok (fshift 1 (nth T pots fone0), [], []) in
-    rbind (fold_left (bwd_step pots qs ev) (rev (seq 1 T)) st0) (fun '(upd_f, _, ans) =>
+    let st0 : res bwd_state := Ok (fshift 1 (nth T pots fone0), [], [], false) in
+    rbind (fold_left (bwd_step pots qs ev) (rev (seq 1 T)) st0) (fun '(upd_f, _, ans, poisoned) =>
       let out := fshift 0 upd_f in
       let pot0 := nth 0 pots fone0 in
       let fs := F0 ++ ratio_factors out pot0 in
-      if negb (ratio_finite out pot0) then Err 6 else
+      if (poisoned || negb (ratio_finite out pot0)) && has_query qs 0 then Err 6 else
       rbind (query_slice fs qs 0 0 (get_ev ev 0 0)) (fun ans0 => Ok (ans ++ ans0)))).
 
 (* unrolled network: slice-0 CPDs, then the transition CPDs moved to slices (t-1, t) for t = 1..T *)
